@@ -106,6 +106,8 @@ Definition str_discover_prl : bytes := [53; 1; 121; 3; 6; 15].
    (mustXID): [xid] is the effective transaction id. *)
 Definition send_discover (c : cfg) (chaddr : option bytes) (ciaddr : bytes) (xid : bytes)
                          (opts : list opt) (junk : bytes) : res (list bytes) :=
+  (* since fix bc82719 a chaddr that is not 6 bytes (nil included) is refused: ErrInvalidMAC *)
+  if negb (match chaddr with Some a => Nat.eqb (List.length a) 6 | None => false end) then Ok [] else
   let ciaddr := if is4 ciaddr then ciaddr else ipv4zero in
   let b := enc_ether junk 2048 (host_mac c) (router_mac c) in
   let b := enc_ip4 14 b 50 (host_ip4 c) (router_ip4 c) in
